@@ -32,13 +32,13 @@ from vf.bounded import gen_fgg as G
 
 PID = "C02"
 MODULE = "props.c02_bounded"
-BUDGETS = {"generous": (1e-5, 1000), "tight": (1e-12, 3)}
+BUDGETS = {"generous": (1e-5, 1000), "tight": (1e-12, 3), "single": (1e-12, 1)}
 REF_MAX_ITER = 5000
 BOUND = ("recursive FGGs within the bound of G (<= 3 nonterminals, <= 3 rules each (random: 2), <= 3 nodes / 3 edges per rhs, "
          "arity <= 2, domain sizes 1..3): self-loop with cycle weight 0.3 / 0.9 / exactly 1 (Viterbi, Bool), mutual "
          "recursion, non-linear X -> X X | a, chained linear/non-linear SCCs, recursion through arity 1-2, two linear rules with the same lhs and recursive nonterminal, Log cycles with log-weight -1e-4..-1e-13 (closed-form reference), seeded random "
          "recursive grammars; x 4 semirings x {float32, float64} x {fixed-point, newton, linear} x (tol,kmax) in "
-         "{(1e-5,1000), (1e-12,3)}")
+         "{(1e-5,1000), (1e-12,3), (1e-12,1)}")
 
 
 def _configs(recipe):
@@ -203,9 +203,9 @@ def check_one(recipe, sname, dname, method, budget, info) -> Tuple[List[dict], D
                     not G.compare_dense(t2, exp_t, sname, vtol * _n_cyclic_below(recipe, x), real_zero_exact=False)):
                 bump("slow-convergence:error-vanishes-with-tol")
                 return out, stats
-    if kind == "wrong-value" and budget == "tight" and o < ex:     # stopped below the least fixed point
+    if kind == "wrong-value" and budget in ("tight", "single") and o < ex:     # stopped below the least fixed point
         kind = "unconverged-no-warning"
-    clause = "sum_product.recursive.value_or_warning" if budget == "tight" else "sum_product.recursive.least_fixed_point"
+    clause = "sum_product.recursive.value_or_warning" if budget in ("tight", "single") else "sum_product.recursive.least_fixed_point"
     special = _special_blame(recipe, x, info["refs"]["Real"]) if ("inf" in kind or kind == "nan") else ""
     vtol = vtol * _n_cyclic_below(recipe, x)
     out.append({"clause": clause, "kind": kind, "key": f"{pre}-{tag(x)}{special}:{kind}",
